@@ -59,6 +59,15 @@ func main() {
 		n := replayLifeFile(rand.New(rand.NewSource(1)), *in, w)
 		w.close()
 		fmt.Printf("HISTORIES %d EVENTS %d\n", n, w.n)
+	case "replay-calls":
+		fs := flag.NewFlagSet("replay-calls", flag.ExitOnError)
+		in := fs.String("in", "", "TLC output with HIST lines")
+		out := fs.String("out", "trace.ndjson", "output file")
+		fs.Parse(os.Args[2:])
+		w := newWriter(*out)
+		n := replayCallsFile(*in, w)
+		w.close()
+		fmt.Printf("CALLS %d EVENTS %d\n", n, w.n)
 	case "shrink":
 		b, err := os.ReadFile(os.Args[2])
 		if err != nil {
